@@ -196,6 +196,7 @@ func main() {
 	genFlow()
 	genHpack()
 	genFrame()
+	genH2Resp()
 	facts["issues"] = issues
 	keys := make([]string, 0, len(facts))
 	for k := range facts {
